@@ -16,6 +16,12 @@ Oracle (public API only) after the constructors and after every assignment:
   * every listener of the matching event on that transform was called exactly once more, through the
     matching callback, with the object (vectors) / a value validly equal (2D rotation) to what the
     property getter returns right afterwards; every other listener was not called;
+  * every listener holds its transform(s) and reads the matching property from inside its callback: it
+    reads the value it is being told (same object / validly equal 2D rotation);
+  * optionally (`boom`) one more all-event listener raises a harness exception from its callback during
+    a solver-chosen assignment: the property still reads the assigned value afterwards, every listener
+    that was reached was called once and was told that value (listeners after the raising one may not be
+    reached; whether the exception reaches the assigning statement is left to C03/C04);
   * all other properties of all transforms read what they read before.
 """
 import desper
@@ -28,10 +34,28 @@ PROPS = ('position', 'rotation', 'scale')
 EVENTS = tuple('on_%s_change' % p for p in PROPS)
 
 
+class Boom(Exception):
+    """Raised by the armed listener from inside its callback (desper handlers use exceptions such as Quit or
+    SwitchWorld for control flow)."""
+
+
 class _Rec:
     def __init__(self, name):
         self.name = name
-        self.calls = []         # (property name of the callback that fired, argument)
+        self.on = []            # (index, transform) of every transform this listener is attached to
+        self.calls = []         # (property of the callback that fired, argument,
+        #                          {index: what that property of transform `index` read inside the callback})
+        self.armed = False
+
+    def attach(self, i, t):
+        t.add_handler(self)
+        self.on.append((i, t))
+
+    def _hit(self, prop, v):
+        self.calls.append((prop, v, {i: getattr(t, prop) for i, t in self.on}))
+        if self.armed:
+            self.armed = False
+            raise Boom(self.name)
 
 
 @desper.event_handler('on_position_change')
@@ -39,7 +63,7 @@ class LPos(_Rec):
     listens = ('position',)
 
     def on_position_change(self, v):
-        self.calls.append(('position', v))
+        self._hit('position', v)
 
 
 @desper.event_handler('on_rotation_change')
@@ -47,7 +71,7 @@ class LRot(_Rec):
     listens = ('rotation',)
 
     def on_rotation_change(self, v):
-        self.calls.append(('rotation', v))
+        self._hit('rotation', v)
 
 
 @desper.event_handler('on_scale_change')
@@ -55,7 +79,7 @@ class LScale(_Rec):
     listens = ('scale',)
 
     def on_scale_change(self, v):
-        self.calls.append(('scale', v))
+        self._hit('scale', v)
 
 
 @desper.event_handler(*EVENTS)
@@ -63,13 +87,13 @@ class LAll(_Rec):
     listens = PROPS
 
     def on_position_change(self, v):
-        self.calls.append(('position', v))
+        self._hit('position', v)
 
     def on_rotation_change(self, v):
-        self.calls.append(('rotation', v))
+        self._hit('rotation', v)
 
     def on_scale_change(self, v):
-        self.calls.append(('scale', v))
+        self._hit('scale', v)
 
 
 # ------------------------------------------------------------------------------------------ values
@@ -113,7 +137,7 @@ def check_same(sp, dim, prop, got, exp, clause, detail):
 
 
 # ------------------------------------------------------------------------------------------ harness
-def h_transform(sp, dim=2, L=2, n_tr=2, n_all=1, ctor_bits=False, ranges=True, ctor_ranges=True):
+def h_transform(sp, dim=2, L=2, n_tr=2, n_all=1, ctor_bits=False, ranges=True, ctor_ranges=True, boom=False):
     cls = Transform2D if dim == 2 else Transform3D
     defaults = dict(position=(0,) * dim, rotation=0 if dim == 2 else (0,) * dim, scale=(1,) * dim)
 
@@ -136,6 +160,9 @@ def h_transform(sp, dim=2, L=2, n_tr=2, n_all=1, ctor_bits=False, ranges=True, c
         p = PROPS[sp.choose(3, 'step%d.property' % k)]
         v = draw_value(sp, dim, p, 'step%d.value' % k)
         steps.append((i, p, v))
+    # the assignment during which one listener (attached to every transform, all three events) raises from
+    # its callback; L = never
+    boom_at = sp.choose(L + 1, 'listener-raises-at-step') if boom else L
     # optional split of the real line for the vacuity tags (the checks below are validity checks over
     # all values of the path either way)
     if dim == 2 and ranges:
@@ -183,12 +210,14 @@ def h_transform(sp, dim=2, L=2, n_tr=2, n_all=1, ctor_bits=False, ranges=True, c
     for i, t in enumerate(transforms):
         for lc in (LPos, LRot, LScale) + (LAll,) * n_all:
             li = lc('%s@T%d' % (lc.__name__, i))
-            t.add_handler(li)
+            li.attach(i, t)
             listeners.append((li, (i,)))
     shared = LAll('LAll@every')
-    for t in transforms:
-        t.add_handler(shared)
-    listeners.append((shared, tuple(range(n_tr))))
+    raiser = LAll('LAll@every(raising)')
+    for li in (shared, raiser) if boom else (shared,):
+        for i, t in enumerate(transforms):
+            li.attach(i, t)
+        listeners.append((li, tuple(range(n_tr))))
 
     # ---- assignments
     for k, (i, p, v) in enumerate(steps):
@@ -196,10 +225,17 @@ def h_transform(sp, dim=2, L=2, n_tr=2, n_all=1, ctor_bits=False, ranges=True, c
         before = read_all(transforms)
         counts = [len(li.calls) for li, _ in listeners]
         sp.note('T%d.%s = %r' % (i, p, v))
+        raiser.armed = aborted = (k == boom_at)
         try:
             setattr(t, p, v)
+            # (whether a listener's exception reaches the assigning statement is the dispatcher's business,
+            # C03/C04; here every outcome is accepted)
+        except Boom:
+            sp.note('   the armed listener raised out of the assignment')
+            sp.cover('listener-raised')
         except Exception as ex:         # noqa
             sp.fail('setter-raises', 'step %d: T%d.%s = ... raised %r' % (k, i, p, ex))
+        raiser.armed = False
         new = getattr(t, p)
         sp.note('   T%d.%s now reads %r' % (i, p, new))
         # stored
@@ -217,10 +253,17 @@ def h_transform(sp, dim=2, L=2, n_tr=2, n_all=1, ctor_bits=False, ranges=True, c
         for (li, where), c0 in zip(listeners, counts):
             fresh = li.calls[c0:]
             want = 1 if (i in where and p in li.listens) else 0
-            sp.check(len(fresh) == want, 'notified-exactly-once' if want else 'not-notified',
-                     'step %d: T%d.%s assigned, listener %s was called %d times (expected %d)' % (
-                         k, i, p, li.name, len(fresh), want))
-            for via, arg in fresh:
+            if aborted and want:
+                # a listener raised during this dispatch: the listeners after it are not reached
+                sp.check(len(fresh) <= 1, 'notified-exactly-once',
+                         'step %d: listener %s was called %d times' % (k, li.name, len(fresh)))
+                sp.check(li is not raiser or len(fresh) == 1, 'notified-exactly-once',
+                         'step %d: the raising listener was not called' % k)
+            else:
+                sp.check(len(fresh) == want, 'notified-exactly-once' if want else 'not-notified',
+                         'step %d: T%d.%s assigned, listener %s was called %d times (expected %d)' % (
+                             k, i, p, li.name, len(fresh), want))
+            for via, arg, inside in fresh:
                 sp.check(via == p, 'matching-event',
                          'step %d: listener %s was called through on_%s_change' % (k, li.name, via))
                 sp.note('   %s.on_%s_change(%r)' % (li.name, via, arg))
@@ -231,6 +274,18 @@ def h_transform(sp, dim=2, L=2, n_tr=2, n_all=1, ctor_bits=False, ranges=True, c
                 else:
                     sp.check(arg is new, 'carried-value',
                              'step %d: listener %s did not receive the object T%d.%s reads' % (k, li.name, i, p))
+                # what the listener read from the transform while it was being notified
+                seen = inside[i]
+                sp.note('      inside the callback T%d.%s read %r' % (i, via, seen))
+                if dim == 2 and p == 'rotation':
+                    sp.check(seen == arg, 'read-inside-callback',
+                             'step %d: inside its callback listener %s read a T%d.rotation that differs from the '
+                             'value it was being told' % (k, li.name, i))
+                else:
+                    sp.check(seen is arg, 'read-inside-callback',
+                             'step %d: inside its callback listener %s read a T%d.%s that is not the object it was '
+                             'being told' % (k, li.name, i, p))
+                sp.cover('read-inside-callback')
                 sp.cover('listener-called')
         # everything else reads what it read before
         after = read_all(transforms)
@@ -274,6 +329,15 @@ HARNESSES = {
                     required=_RANGE_TAGS[:3] + ['rotation2d-assigned', 'vector-assigned', 'listener-called',
                                                 'ctor-value', 'ctor-default', 'two-default-instances',
                                                 'same-property-twice', 'other-transform-next']),
+    # same harness with one more all-event listener that raises from its callback during a chosen assignment
+    't2d_boom': dict(fn=h_t2d, concolic=True, nonlinear=True,
+                     nontrivial=['listener-raised', 'same-property-twice', 'other-transform-next'],
+                     required=['rotation2d-assigned', 'vector-assigned', 'listener-called', 'listener-raised',
+                               'read-inside-callback', 'ctor-value', 'ctor-default']),
+    't3d_boom': dict(fn=h_t3d, concolic=True,
+                     nontrivial=['listener-raised', 'same-property-twice', 'other-transform-next'],
+                     required=['vector-assigned', 'listener-called', 'listener-raised', 'read-inside-callback',
+                               'ctor-value', 'ctor-default']),
     # same harness, constructor-argument combinations in front of a single assignment
     't2d_ctor': dict(fn=h_t2d, concolic=True, nonlinear=True,
                      nontrivial=['set-rotation-negative', 'set-rotation-360-or-more', 'ctor-rotation-negative',
@@ -290,6 +354,8 @@ TIERS = {
     'quick': [
         ('t2d', dict(L=2, n_tr=2, n_all=1)),
         ('t3d', dict(L=2, n_tr=2, n_all=1)),
+        ('t2d_boom', dict(L=2, n_tr=2, n_all=1, boom=True, ranges=False)),
+        ('t3d_boom', dict(L=2, n_tr=2, n_all=1, boom=True)),
     ],
     'thorough': [
         ('t2d_seq', dict(L=3, n_tr=2, n_all=2, ctor_ranges=False)),
@@ -298,6 +364,9 @@ TIERS = {
         ('t2d_seq', dict(L=2, n_tr=3, n_all=1, ctor_ranges=False)),
         ('t3d', dict(L=3, n_tr=2, n_all=2, ctor_bits=True)),
         ('t3d', dict(L=2, n_tr=3, n_all=1)),
+        ('t2d_boom', dict(L=2, n_tr=2, n_all=1, boom=True, ranges=False)),
+        ('t2d_boom', dict(L=3, n_tr=2, n_all=1, boom=True, ranges=False)),
+        ('t3d_boom', dict(L=3, n_tr=2, n_all=1, boom=True)),
     ],
 }
 BUDGET_S = {'quick': 120, 'thorough': 900}
@@ -316,11 +385,13 @@ RULE = ('one evaluation = one feasible path (constructor arguments given or defa
 BOUNDS = {
     'quick': '2 transforms, each default-constructed or with three symbolic constructor values; 6 listeners per '
              'transform (one per event, one for all events, one shared by all transforms); every sequence of 2 '
-             'assignments; values unbounded reals; both for Transform2D and Transform3D',
+             'assignments; values unbounded reals; both for Transform2D and Transform3D; the same again with an '
+             'additional listener raising during assignment 0, 1 or never',
     'thorough': 'Transform2D: every sequence of 3 assignments on 2 transforms (2 all-event listeners each); 1 assignment '
                 'with each constructor argument separately given or defaulted; every sequence of 2 assignments on 3 '
                 'transforms.  Transform3D: 3 assignments on 2 transforms with separate constructor bits; 2 assignments '
-                'on 3 transforms.  Values unbounded reals; every path re-run concretely on its model',
+                'on 3 transforms.  Raising listener: during any one or none of 2 (2D) and of 3 (2D, 3D) assignments.  '
+                'Values unbounded reals; every path re-run concretely on its model',
 }
 ASSUMPTIONS = [
     'rotation values are exact reals: `%` is the mathematical remainder in [0, 360); float rounding of `%` is not modelled',
@@ -329,10 +400,14 @@ ASSUMPTIONS = [
     '"default values are not shared between instances" is checked behaviourally: both default instances read the '
     'documented defaults and an assignment on one transform never changes what another transform reads; sharing '
     'of the immutable default Vec objects themselves would be harmless and is not reported',
+    '"the very value a read of the property returns right afterwards" includes a read made by the listener from '
+    'inside its callback, and holds for the listeners reached before another listener raised (the assignment '
+    '"stores the value" whether or not a listener raises); the number of listeners reached after a raise is open',
     'constructor vectors are passed as plain tuples and compared entry by entry with what the property reads',
     'listeners are ordinary strongly referenced handler objects; dispatching stays enabled (C03/C04 cover the rest)',
 ]
 OUTSIDE = ['sequences longer than the bound, more than 3 transforms', 'non-finite floats (nan % 360 is nan)',
-           'floating-point rounding inside value % 360.', 'listeners that raise or re-enter the setters']
+           'floating-point rounding inside value % 360.', 'listeners that assign to a transform from inside a callback',
+           'more than one raising listener per sequence']
 
 TECHNIQUE = 'bounded symbolic execution with symbolic real rotations/vectors (z3 mixed integer/real arithmetic for % 360), validity checks, concolic cross-check'
